@@ -179,6 +179,7 @@ pub struct SweepPlan {
     pub corner: Vec<(u8, u8, Vec<Man>)>,
     pub skip_reach: bool,
     pub absurd: bool,
+    pub ep_push: bool,
 }
 
 pub fn men1() -> Vec<Vec<Man>> {
@@ -313,6 +314,9 @@ pub fn run_plan(ctx: &Ctx, plan: &SweepPlan) -> (u64, u64) {
         add(run_family(ctx, "F-HEAVY", &format!("up to {q} queens, {r} rooks, {bn} bishops, {bn} knights a side, 3 filling orders, both sides to move"), 1, &total, &|_, cb| {
             families::enumerate_heavy(q, r, bn, cb)
         }));
+    }
+    if plan.ep_push {
+        add(run_family(ctx, "F-EP-PUSH", "the position before the double step of every en-passant constellation (pushed pawn on each file, 1-2 capturers, no further man): the double step and every other move are made by the engine", 8, &total, &|i, cb| families::enumerate_ep_push(i as i32, None, cb)));
     }
     if plan.absurd {
         add(run_family(ctx, "F-ABSURD", "20..56 queens or rooks of one colour against a shielded bare king, the poor side to move, both colours", 1, &total, &|_, cb| families::enumerate_absurd(cb)));
